@@ -115,3 +115,27 @@ Example C04_dispatch_nonvacuous : DispatchProofs.demo_hit_statement.
 Proof. exact DispatchProofs.demo_hit. Qed.
 Example C04_dispatch_scripted_nonvacuous : DispatchProofs.demo_scripted_statement.
 Proof. exact DispatchProofs.demo_scripted. Qed.
+
+(* ------------------------------------------------------------------------------------------ *)
+(* TRANSLATOR TIE of the listener dispatch.  Gen/DispatchTable.v is regenerated by `go2coq DispatchTable`
+   from pkg/engine/modifier/listener.go on every run: the Subscribe wiring, and per subscribed method the
+   walks (role expression, snapshot guard, callbacks with their gates and arguments, in source order).
+   Model/DispatchInterp.v interprets that table over the model's world / call / event types.  For every
+   world and every event of listener.go the interpretation of the generated table is what the
+   hand-written model computes (calls, verdict, read-back number, world afterwards); the model's callback
+   enumeration is the field list of modifier.Listeners; the events wired are the model's events. *)
+From SR Require Model.DispatchInterp Gen.DispatchTable Proofs.DispatchTableProofs.
+
+Theorem C04_dispatch_is_the_source :
+  (forall w e, DispatchTableProofs.from_listener_go e = true ->
+     DispatchInterp.interp DispatchTable.table e w = Some (Dispatch.run_event w e)) /\
+  DispatchTable.listeners_fields = Dispatch.all_cbs /\
+  map DispatchInterp.sub_event (DispatchInterp.t_subs DispatchTable.table) = DispatchTableProofs.model_event_names.
+Proof. exact DispatchTableProofs.c04_holds. Qed.
+Print Assumptions C04_dispatch_is_the_source.
+
+Example C04_dispatch_table_nonvacuous :
+  option_map (fun r => List.length (fst (fst (fst r))))
+    (DispatchInterp.interp DispatchTable.table (Dispatch.EHitStart 1 2 0 false 7) DispatchTableProofs.demo_world)
+  = Some 6%nat.
+Proof. exact DispatchTableProofs.demo_interp. Qed.
